@@ -1,6 +1,7 @@
 package main
 
 import (
+	"encoding/json"
 	"fmt"
 	"math/rand"
 	"reflect"
@@ -220,6 +221,118 @@ func (n *orderedPodNsLister) Get(name string) (*v1.Pod, error) {
 
 const syElsewhere = "elsewhere"
 
+// contentChecks judges WHAT a write carries (the log only says which call was made): the body and type of adoption / release
+// patches, the owner reference and identity of created objects, delete options, the subresource of the status write. Each
+// failed check is a clause name; the driver reports them as monitor failures.
+func (w *syWorld) contentChecks(a k8stesting.Action) (bad []string) {
+	defer func() {
+		if r := recover(); r != nil {
+			bad = append(bad, "C10.writes.unreadable")
+		}
+	}()
+	fail := func(clause string, ok bool) {
+		if !ok {
+			bad = append(bad, clause)
+		}
+	}
+	isTrue := func(b *bool) bool { return b != nil && *b }
+	ownerOK := func(refs []metav1.OwnerReference) bool {
+		n := 0
+		for _, r := range refs {
+			if r.UID == syUID {
+				n++
+				if r.APIVersion != "apps.pingcap.com/v1" || r.Kind != "StatefulSet" || r.Name != rcSetName || !isTrue(r.Controller) || !isTrue(r.BlockOwnerDeletion) {
+					return false
+				}
+			}
+		}
+		return n == 1
+	}
+	res, verb := a.GetResource().Resource, a.GetVerb()
+	switch {
+	case verb == "patch" && (res == "pods" || res == "controllerrevisions"):
+		pa := a.(k8stesting.PatchAction)
+		fail("C10.patchtype", pa.GetPatchType() == types.StrategicMergePatchType)
+		var body struct {
+			Metadata struct {
+				UID             string                   `json:"uid"`
+				OwnerReferences []map[string]interface{} `json:"ownerReferences"`
+				Finalizers      []string                 `json:"finalizers"`
+			} `json:"metadata"`
+			Spec   map[string]interface{} `json:"spec"`
+			Status map[string]interface{} `json:"status"`
+		}
+		if err := json.Unmarshal(pa.GetPatch(), &body); err != nil {
+			return append(bad, "C10.patchbody")
+		}
+		// the precondition: the patch names the uid of the object it was computed for
+		var want types.UID
+		if res == "pods" {
+			if obj, err := w.kube.Tracker().Get(podsGVR, a.GetNamespace(), pa.GetName()); err == nil {
+				want = obj.(*v1.Pod).UID
+			}
+		} else if obj, err := w.kube.Tracker().Get(syRevsGVR, a.GetNamespace(), pa.GetName()); err == nil {
+			want = obj.(*kubeapps.ControllerRevision).UID
+		}
+		fail("C10.patchuid", want == "" || body.Metadata.UID == string(want))
+		fail("C10.patchscope", body.Spec == nil && body.Status == nil && len(body.Metadata.Finalizers) == 0 && len(body.Metadata.OwnerReferences) == 1)
+		if len(body.Metadata.OwnerReferences) == 1 {
+			r := body.Metadata.OwnerReferences[0]
+			if r["$patch"] == "delete" { // release: exactly the set's own reference goes
+				fail("C10.releasebody", r["uid"] == string(syUID) && len(r) == 2)
+			} else { // adoption: a controller reference to the set by uid
+				fail("C10.adoptbody", r["uid"] == string(syUID) && r["apiVersion"] == "apps.pingcap.com/v1" && r["kind"] == "StatefulSet" &&
+					r["name"] == rcSetName && r["controller"] == true && r["blockOwnerDeletion"] == true)
+			}
+		}
+	case verb == "create" && res == "pods":
+		if p, ok := a.(k8stesting.CreateAction).GetObject().(*v1.Pod); ok {
+			_, ord := specParentAndOrdinal(p.Name)
+			fail("C06.createdowner", ownerOK(p.OwnerReferences) && len(p.OwnerReferences) == 1)
+			fail("C06.createdidentity", ord >= 0 && p.Namespace == rcNS && p.Labels[apps.StatefulSetPodNameLabel] == p.Name && p.Spec.Hostname == p.Name &&
+				p.Spec.Subdomain == "svc" && p.GenerateName == rcSetName+"-" && p.ResourceVersion == "" && p.UID == "" && p.DeletionTimestamp == nil && len(p.Finalizers) == 0)
+		}
+	case verb == "update" && res == "pods":
+		if p, ok := a.(k8stesting.UpdateAction).GetObject().(*v1.Pod); ok {
+			// an identity / storage repair keeps everything else the controller's (cached) copy of the pod carried
+			for _, c := range w.cpods {
+				if c.Namespace == a.GetNamespace() && c.UID == p.UID {
+					fail("C06.updatekeeps", reflect.DeepEqual(c.OwnerReferences, p.OwnerReferences) && c.Labels[kubeapps.StatefulSetRevisionLabel] == p.Labels[kubeapps.StatefulSetRevisionLabel] &&
+						reflect.DeepEqual(c.Status, p.Status) && reflect.DeepEqual(c.Spec.Containers, p.Spec.Containers) && reflect.DeepEqual(c.Annotations, p.Annotations))
+				}
+			}
+		}
+	case verb == "create" && res == "controllerrevisions":
+		if r, ok := a.(k8stesting.CreateAction).GetObject().(*kubeapps.ControllerRevision); ok {
+			fail("C08.revowner", ownerOK(r.OwnerReferences) && len(r.OwnerReferences) == 1 && (r.Namespace == rcNS || r.Namespace == "") && a.GetNamespace() == rcNS && r.ResourceVersion == "" && r.UID == "")
+		}
+	case verb == "update" && res == "controllerrevisions":
+		if r, ok := a.(k8stesting.UpdateAction).GetObject().(*kubeapps.ControllerRevision); ok {
+			// renumbering / label sync never touches what a revision records or who owns it
+			if cur, err := w.kube.Tracker().Get(syRevsGVR, a.GetNamespace(), r.Name); err == nil {
+				c := cur.(*kubeapps.ControllerRevision)
+				fail("C08.revupdatekeeps", string(c.Data.Raw) == string(r.Data.Raw) && reflect.DeepEqual(c.OwnerReferences, r.OwnerReferences) && c.UID == r.UID)
+			}
+		}
+	case verb == "delete" && (res == "pods" || res == "controllerrevisions"):
+		if d, ok := a.(interface{ GetDeleteOptions() metav1.DeleteOptions }); ok {
+			o := d.GetDeleteOptions()
+			clause := "C03.deleteoptions"
+			if res == "controllerrevisions" {
+				clause = "C13.deleteoptions"
+			}
+			fail(clause, o.GracePeriodSeconds == nil && o.PropagationPolicy == nil && o.OrphanDependents == nil && len(o.DryRun) == 0 &&
+				(o.Preconditions == nil || (o.Preconditions.UID == nil && o.Preconditions.ResourceVersion == nil)))
+		}
+	case verb == "update" && res == "statefulsets":
+		fail("C10.setwrite", a.GetSubresource() == "status")
+		if s, ok := a.(k8stesting.UpdateAction).GetObject().(*apps.StatefulSet); ok && w.cached != nil {
+			fail("C12.statusobject", s.Name == rcSetName && s.Namespace == rcNS && s.UID == w.cached.UID && s.Generation == w.cached.Generation)
+		}
+	}
+	return bad
+}
+
 // syCrash is the sentinel the reactor panics with to model the controller process dying at an API call.
 type syCrash struct{ at string }
 
@@ -229,6 +342,7 @@ type syWorld struct {
 	count      map[string]int
 	faults     map[string]string
 	written    *apps.StatefulSetStatus
+	wbad       []string  // content checks a write of this sync failed (clause names), see contentChecks
 	creates    []string  // name@revision-label of every pod create issued
 	stAttempts []string  // the status carried by every status-write attempt of this sync, failed ones included
 	created    []*v1.Pod // the pod objects submitted by the creates of this sync
@@ -329,7 +443,17 @@ func (w *syWorld) react(a k8stesting.Action) (bool, runtime.Object, error) {
 		return true, &kubeapps.ControllerRevision{}, apierrors.NewBadRequest("resource name may not be empty")
 	}
 	key := actionKey(a)
+	bads := w.contentChecks(a)
 	w.mu.Lock()
+	for _, b := range bads {
+		dup := false
+		for _, x := range w.wbad {
+			dup = dup || x == b
+		}
+		if !dup {
+			w.wbad = append(w.wbad, b)
+		}
+	}
 	occ := w.count[key]
 	w.count[key]++
 	w.log = append(w.log, key)
@@ -813,7 +937,7 @@ func runSyncCase(c *syCase) (obs string, log []string) {
 			stvar = true
 		}
 	}
-	obs = fmt.Sprintf("log=%s status=%s cc=%s revs=%s out=%s mut=%s creates=%s stvar=%s", strings.Join(w.log, ","), st, cc, w.finalRevs(c), out, b2s(mut), strings.Join(w.creates, ","), b2s(stvar)) + fmt.Sprintf(" tplbad=%d", w.tplBad(c))
+	obs = fmt.Sprintf("log=%s status=%s cc=%s revs=%s out=%s mut=%s creates=%s stvar=%s", strings.Join(w.log, ","), st, cc, w.finalRevs(c), out, b2s(mut), strings.Join(w.creates, ","), b2s(stvar)) + fmt.Sprintf(" tplbad=%d wbad=%s", w.tplBad(c), strings.Join(w.wbad, ","))
 	if site != "" {
 		obs += " site=" + strings.ReplaceAll(site, " ", "_")
 	}
